@@ -188,6 +188,10 @@ class St:
     pass
 
 
+NESTED_FAMILIES = ['single', 'multi-first', 'multi-last', 'sandwich', 'twice', 'wide']
+NESTED_WRAPPERS = ['adnl.message.custom', 'adnl.message.query', 'adnl.message.answer', 'liteServer.query']
+
+
 class WorkWorld(World):
     name = 'WORK'
     chunk = 4
@@ -199,7 +203,8 @@ class WorkWorld(World):
     def __init__(self, prop, tier):
         super().__init__(prop, tier)
         q = tier == 'quick'
-        self.legs = [('dag', 800 if q else 30000), ('boc-bytes', 160 if q else 6000), ('tl-bytes', 240 if q else 10000), ('dict', 480 if q else 20000)]
+        self.legs = [('dag', 800 if q else 30000), ('boc-bytes', 160 if q else 6000), ('tl-bytes', 240 if q else 10000), ('dict', 480 if q else 20000),
+                     ('tl-nested', 96 if q else 3000)]
         self.budget = {'quick': 110, 'thorough': 1500}
         self._schemas = None
 
@@ -232,6 +237,9 @@ class WorkWorld(World):
             return {'ncells': rng.choice([1, 2, 3, 5, 8, 12]), 'exotic': rng.random() < 0.3, 'dag_seed': rng.getrandbits(32)}
         if leg == 'tl-bytes':
             return {'seed': rng.getrandbits(32)}
+        if leg == 'tl-nested':
+            fam = NESTED_FAMILIES[run_index % len(NESTED_FAMILIES)]
+            return {'family': fam, 'depth': rng.choice([6, 10, 14, 18, 22]), 'wrap': rng.choice(NESTED_WRAPPERS), 'seed': rng.getrandbits(32)}
         return {'keys': rng.choice([1, 2, 3, 8, 20, 60]), 'width': rng.choice([1, 2, 8, 32, 64, 256, 267, 500, 1023]), 'kind': rng.choice(['dense', 'sparse', 'same0', 'same1', 'random']),
                 'seed': rng.getrandbits(32), 'aug': rng.random() < 0.3}
 
@@ -547,6 +555,87 @@ class WorkWorld(World):
             elif st == 'raised' and isinstance(res, MemoryError):
                 self._fail(ctx, [enc_op, {'op': 'parse', 'damage': d}], 'allocation-by-count-field', 'tl-deserialize', 'damaged-' + d['kind'],
                            'TlSchemas.deserialize on a %d-byte input ran out of memory' % len(inp))
+
+    # ------------------------------------------------------------------ nested tl frames
+    def _nested_frame(self, ref, fam, wrap, depth, seed):
+        """A valid frame whose bytes field holds TL objects, which hold TL objects ...: the library parses such payloads
+        recursively.  Returns the wire bytes."""
+        rnd = random.Random(seed)
+        nop = ref.encode('adnl.message.nop', {})
+
+        def wrapv(payload):
+            c = ref.by_name[wrap]
+            val = {}
+            for f in c.fields:
+                if f.type == 'bytes':
+                    val[f.name] = payload
+                elif f.type == 'int256':
+                    val[f.name] = '%064x' % rnd.getrandbits(256)
+                elif f.type in ('int', 'long'):
+                    val[f.name] = rnd.getrandbits(16)
+                else:
+                    raise KeyError(f.type)
+            return ref.encode(wrap, val)
+
+        cur = nop
+        for _ in range(depth):
+            if fam == 'single':
+                payload = cur
+            elif fam == 'multi-first':
+                payload = cur + nop
+            elif fam == 'multi-last':
+                payload = nop + cur
+            elif fam == 'sandwich':
+                payload = nop + cur + nop
+            elif fam == 'twice':
+                payload = cur + cur if len(cur) < 40 else cur + nop
+            else:   # 'wide': many small objects side by side, nested once per level
+                payload = cur + nop * 3
+            cur = wrapv(payload)
+        return cur
+
+    def run_tl_nested(self, ctx, ops):
+        ref = tlworld.ref_schema()
+        sch = self._get_schemas()
+        cfg = ctx.cfg
+        if ops is None:
+            plan = [{'op': 'nested', 'family': cfg['family'], 'wrap': cfg['wrap'], 'depth': cfg['depth'], 'seed': cfg['seed']}]
+        else:
+            plan = [o for o in ops if o['op'] == 'nested']
+        for op in plan:
+            ctx.op(op)
+            ctx.tag(op['family'], op['wrap'])
+            steps_at = {}
+            for mult in (1, 2):
+                d = op['depth'] * mult
+                try:
+                    wire = self._nested_frame(ref, op['family'], op['wrap'], d, op['seed'])
+                except Exception:
+                    return
+                if len(wire) > 4000:
+                    break
+                budget = bytes_budget(len(wire))
+                st, res, steps = metered(budget, sch.deserialize, wire)
+                ctx.evaluated(1)
+                ctx.tick(steps)
+                ctx.fault('tl-nested-' + op['family'])
+                steps_at[mult] = (steps, len(wire))
+                if st == 'budget':
+                    self._fail(ctx, [op], 'budget-exceeded', 'tl-deserialize', 'nested-' + op['family'],
+                               'TlSchemas.deserialize on a valid %d-byte frame with %d levels of objects inside bytes fields did not finish within %d steps' % (len(wire), d, budget))
+                    return
+                if st == 'raised' and isinstance(res, MemoryError):
+                    self._fail(ctx, [op], 'allocation-by-count-field', 'tl-deserialize', 'nested-' + op['family'], 'ran out of memory on a %d-byte frame' % len(wire))
+                    return
+            if 1 in steps_at and 2 in steps_at:
+                ctx.probe('nested-growth-checked')
+                (s1, l1), (s2, l2) = steps_at[1], steps_at[2]
+                # twice the depth is about twice the bytes (more for 'twice'): allow the length ratio squared plus slack
+                ratio = max(2.0, l2 / max(1, l1))
+                if s2 > 2 * ratio * ratio * s1 + 10000:
+                    self._fail(ctx, [op], 'super-polynomial-growth', 'tl-deserialize', 'nested-' + op['family'],
+                               'doubling the nesting depth %d -> %d (bytes %d -> %d) multiplied the parser\'s work by %.1f (%d -> %d steps)' % (op['depth'], 2 * op['depth'], l1, l2, s2 / max(1, s1), s1, s2))
+                    return
 
     # ------------------------------------------------------------------ dictionaries
     def run_dict(self, ctx, ops):
